@@ -76,6 +76,24 @@ def apply(root, op):
             return UNSPEC          # index gap on a list: the statement does not say
         o.mod = True
         return 0
+    if kind == 'selfstr':
+        _, name, frm, to = op
+        sec, o, _ = resolve(root, name)
+        if o is None or o.d.typ != 'str':
+            return -1
+        if to != 0 and not o.d.is_list:
+            return -1
+        src = o.vals[frm] if frm < len(o.vals) else None
+        if src is None:
+            return UNSPEC          # copying a NULL / absent value: not what this call is about
+        if to < len(o.vals):
+            o.vals[to] = src
+        elif to == len(o.vals):
+            o.vals.append(src)
+        else:
+            return UNSPEC
+        o.mod = True
+        return 0
     if kind in ('setlist', 'addlist'):
         _, name, typ, vals = op
         sec, o, _ = resolve(root, name)
@@ -180,6 +198,8 @@ def render(op, optloc=None):
         else:
             v = str(int(value))
         return 'set%s 0 %s %s%s' % (typ, hx(name), v, '' if idx is None else ' %d' % idx)
+    if kind == 'selfstr':
+        return 'selfstr 0 %s %d %d' % (hx(op[1]), op[2], op[3])
     if kind in ('setlist', 'addlist'):
         _, name, typ, vals = op
         if typ == 'float':
